@@ -37,6 +37,16 @@ class Case:
         self.dir = "c%05d" % ci
         self.pkgname = self.dir
         self.opts = case.get('opts', {}) or {}
+        self.naming = self.P.get('naming') or {}
+        self.extravars = self.P.get('extravars') or []
+
+    def nm(self, ident):
+        """Go identifier for an abstract type / function name (family N renames them)"""
+        return self.naming.get(ident, ident)
+
+    def alias(self, pkg):
+        """identifier under which package pkg is imported"""
+        return self.naming.get('alias:' + pkg, self.goname(pkg))
 
     # ---- packages -------------------------------------------------------
     def pkgs(self):
@@ -58,7 +68,7 @@ class Case:
         return self.dir + ("" if pkg == 'a' else "/" + pkg)
 
     def goname(self, pkg):
-        return self.pkgname if pkg == 'a' else pkg
+        return self.pkgname if pkg == 'a' else (self.P.get('naming') or {}).get('pkg:' + pkg, pkg)
 
     # ---- types ----------------------------------------------------------
     def spell(self, atom):
@@ -69,9 +79,9 @@ class Case:
         at = self.atoms[a]
         q = ''
         if at['pkg'] != frompkg:
-            q = at['pkg'] + '.'
+            q = self.alias(at['pkg']) + '.'
             used.add(at['pkg'])
-        return ''.join(pre) + q + at['id']
+        return ''.join(pre) + q + self.nm(at['id'])
 
     def mk(self, t, tokexpr, frompkg, used):
         """Go expression building a value of type t carrying token tokexpr."""
@@ -80,7 +90,7 @@ class Case:
         if not pre:
             q = ''
             if at['pkg'] != frompkg:
-                q = at['pkg'] + '.'
+                q = self.alias(at['pkg']) + '.'
                 used.add(at['pkg'])
             return "%sMk%s(%s)" % (q, at['id'], tokexpr)
         inner = t[len(pre[0]):]
@@ -103,7 +113,7 @@ class Case:
                         parts.append('%s: %s' % (f['name'], self.valexpr(f['type'], tok + '.' + f['name'], frompkg, used)))
                 return '%s{%s}' % (ty, ', '.join(parts))
             if at['kind'] == 'iface':
-                q = '' if at['pkg'] == frompkg else at['pkg'] + '.'
+                q = '' if at['pkg'] == frompkg else self.alias(at['pkg']) + '.'
                 if q:
                     used.add(at['pkg'])
                 return '%sX%s{Tok: "%s"}' % (q, at['id'], tok)
@@ -127,7 +137,7 @@ class Case:
             if p == '!unsafe':
                 lines.append('\t"unsafe"')
             elif p != frompkg:
-                lines.append('\t%s "%s"' % (p, self.pkgpath(p)))
+                lines.append('\t%s "%s"' % (self.alias(p), self.pkgpath(p)))
         for e in extra:
             lines.append('\t' + e)
         if not lines:
@@ -142,8 +152,8 @@ class Case:
                 continue
             i = at['id']
             if at['kind'] == 'tok':
-                body.append('type %s struct{ Tok string }\n' % i)
-                body.append('func Mk%s(tok string) %s { return %s{Tok: tok} }\n' % (i, i, i))
+                body.append('type %s struct{ Tok string }\n' % self.nm(i))
+                body.append('func Mk%s(tok string) %s { return %s{Tok: tok} }\n' % (i, self.nm(i), self.nm(i)))
             elif at['kind'] == 'struct':
                 fl = []
                 ini = []
@@ -171,7 +181,7 @@ class Case:
                 body.append('func Mk%s(tok string) %s { _ = tok; return %s }\n' % (i, i, NAMED_MK[g] % {'T': i}))
             for m in at.get('impl', []):
                 star = '*' if m['recv'] == 'pointer' else ''
-                body.append('func (%s%s) M%s() {}\n' % (star, i, m['iface']))
+                body.append('func (%s%s) M%s() {}\n' % (star, self.nm(i), m['iface']))
         needq = any((l.get('res') or []) and l['pkg'] == pkg for l in self.P['leaves'] if l['k'] == 'func') or \
             (pkg == 'a' and any((i.get('res') or []) for i in self.P['injs']))
         if any(a['kind'] == 'named' and a['go'].lstrip('=') == 'error' and a['pkg'] == pkg for a in self.P['atoms']):
@@ -214,7 +224,7 @@ class Case:
                 names.append('a%d' % (j + 1))
             outty = self.gotype(l['out'], pkg, used)
             res, derived = self.result_types(l, outty)
-            sig = 'func %s(%s) ' % (l['name'], ', '.join(params))
+            sig = 'func %s(%s) ' % (self.nm(l['name']), ', '.join(params))
             sig += ('(%s)' % ', '.join(res)) if len(res) != 1 else res[0]
             if not derived:
                 need_q = True
@@ -241,6 +251,14 @@ class Case:
                 ret.append('nil')
             lines.append('\treturn ' + ', '.join(ret))
             body.append('%s {\n%s\n}\n' % (sig, '\n'.join(lines)))
+        if pkg == 'a':
+            for v in self.extravars:
+                if v == 'err' or v.startswith('err'):
+                    body.append('var %s error = rt.Err("captured-%s", "pkgvar")\n' % (v, v))
+                elif v.startswith('cleanup'):
+                    body.append('var %s func() = func() { rt.Note("captured-%s", nil) }\n' % (v, v))
+                else:
+                    body.append('var %s = rt.D(nil)\n' % v)
         if not body:
             return None
         extra = ['"%s/rt"' % MOD]
@@ -262,8 +280,8 @@ class Case:
         if k == 'func':
             if l['pkg'] != frompkg:
                 used.add(l['pkg'])
-                return l['pkg'] + '.' + l['name']
-            return l['name']
+                return self.alias(l['pkg']) + '.' + self.nm(l['name'])
+            return self.nm(l['name'])
         if k == 'struct':
             args = ['new(%s)' % self.gotype(l['s'], frompkg, used)]
             if l['all']:
